@@ -462,6 +462,48 @@ def check_frames(ctx, msgs_by_magic, res):
     res['evaluations'] += len(got)
 
 
+def check_reused_buffers(ctx, msgs, res):
+    """Oracle only: "(command, payload) SEQUENCES" whose payloads are one mutable buffer that the
+    caller reuses - framed, changed in place (same length / longer / shorter), framed again, on the
+    same and on another framer object, with no other checksum computed in between.  Every frame
+    must be the layout of the property text for the payload AS IT IS when frame() is called."""
+    _init(ctx.repo)
+    framing = _mods[0]
+    for magic, cmd, payload in msgs:
+        if len(cmd) > 12 or not payload:
+            continue
+        for edit in ('flip', 'grow', 'shrink'):
+            for other_framer in (False, True):
+                buf = bytearray(payload)
+                fr1 = framing.BitcoinFramer(magic=magic)
+                fr2 = framing.BitcoinFramer(magic=magic) if other_framer else fr1
+                case = {'k': 'frame-reused', 'magic': magic.hex(), 'cmd': cmd.hex(),
+                        'payload': payload.hex(), 'edit': edit, 'other_framer': other_framer}
+                try:
+                    b1 = bytes(fr1.frame((cmd, buf)))
+                    want1 = mk_frame(magic, cmd, bytes(buf))
+                    if edit == 'flip':
+                        buf[len(buf) // 2] ^= 0x5a
+                    elif edit == 'grow':
+                        buf += b'\x00tail'
+                    else:
+                        del buf[-1:]
+                    b2 = bytes(fr2.frame((cmd, buf)))
+                    want2 = mk_frame(magic, cmd, bytes(buf))
+                except Exception as e:
+                    res.violation('c07:frame-raises', case,
+                                  f'frame() raised {type(e).__name__} for a bytearray payload')
+                    continue
+                res.count('frame_calls_reused_buffer', 2)
+                if b1 != want1 or b2 != want2:
+                    which = 'first' if b1 != want1 else 'second (after the buffer was changed in place)'
+                    res.violation('c07:header-layout', case,
+                                  f'the {which} frame of a reused mutable payload buffer is not magic + '
+                                  f'zero-padded command + LE length + sha256d[:4] + payload',
+                                  impl=(b1 if b1 != want1 else b2).hex()[:200])
+        res['evaluations'] += 6
+
+
 # ---------------------------------------------------------------- case generation
 def chunk_whole(s):
     return [s]
@@ -843,6 +885,7 @@ def run(ctx):
     # (b) frame(): layout from the property text + model
     fi = frame_inputs(rng, 1500 if deep else 300)
     check_frames(ctx, fi, res)
+    check_reused_buffers(ctx, fi[:120], res)
     res['scopes']['frame_calls'] = len(fi)
     # (c) exhaustive small scopes
     ex = []
@@ -891,7 +934,10 @@ def replay(ctx, case):
         case = case['case']
     res = Results()
     check_limit_probe(ctx.repo)
-    if case.get('k') == 'frame':
+    if case.get('k') == 'frame-reused':
+        check_reused_buffers(ctx, [(bytes.fromhex(case['magic']), bytes.fromhex(case['cmd']),
+                                    bytes.fromhex(case['payload']))], res)
+    elif case.get('k') == 'frame':
         check_frames(ctx, [(bytes.fromhex(case['magic']), bytes.fromhex(case['cmd']),
                             bytes.fromhex(case['payload']))], res)
     else:
